@@ -56,6 +56,7 @@ _AXIOM_NAMES = []
 
 
 def reset_registry():
+  _CONST_CACHE.clear()
   _STR_LITS.clear()
   del _AXIOMS[:]
   del _AXIOM_NAMES[:]
@@ -83,12 +84,57 @@ def add_axiom(name, ax):
   _AXIOMS.append(ax)
 
 
-def background_axioms():
+_CONST_CACHE = {}
+
+
+def _uninterpreted_consts(exprs):
+  out = {}
+  for e in exprs:
+    key = e.get_id()
+    hit = _CONST_CACHE.get(key)
+    if hit is None or not hit[0].eq(e):
+      hit = (e, _uninterpreted_consts1([e]))
+      _CONST_CACHE[key] = hit
+    out.update(hit[1])
+  return out
+
+
+def _uninterpreted_consts1(exprs):
+  seen, out = set(), {}
+  stack = list(exprs)
+  while stack:
+    t = stack.pop()
+    i = t.get_id()
+    if i in seen:
+      continue
+    seen.add(i)
+    if z3.is_quantifier(t):
+      stack.append(t.body())
+      for k in range(t.num_patterns()):
+        stack.extend(t.pattern(k).children())
+      continue
+    if z3.is_app(t):
+      if t.num_args() == 0 and t.decl().kind() == z3.Z3_OP_UNINTERPRETED:
+        out[t.decl().name()] = t
+      stack.extend(t.children())
+  return out
+
+
+def background_axioms(exprs=None):
+  """Axioms added to every VC.  Only literals / exception classes that occur
+  in the VC are mentioned, so a VC does not depend on what else was processed
+  in the same run."""
   axs = list(_AXIOMS)
-  lits = list(_STR_LITS.values())
+  if exprs is None:
+    lits = list(_STR_LITS.values())
+    excs = None
+  else:
+    occ = _uninterpreted_consts(list(exprs) + axs)
+    lits = [c for n, c in sorted(occ.items()) if n.startswith('str!')]
+    excs = set(n[4:] for n in occ if n.startswith('exc!'))
   if len(lits) > 1:
     axs.append(z3.Distinct(*lits))
-  axs.extend(exc_axioms())
+  axs.extend(exc_axioms(excs))
   return axs
 
 
@@ -142,8 +188,18 @@ def exc_sub(c1, c2):
   return ufun('exc_sub', ExcCls, ExcCls, BoolS)(c1, c2)
 
 
-def exc_axioms():
-  names = list(_EXC_CONSTS)
+def exc_axioms(only=None):
+  names = sorted(_EXC_CONSTS)
+  if only is not None:
+    keep = set()
+    for n in only:
+      while n is not None and n in _EXC_PARENT:
+        keep.add(n)
+        n = _EXC_PARENT[n]
+    keep.add('BaseException')
+    for n in keep:
+      exc_const(n)
+    names = sorted(keep)
   axs = []
   if len(names) > 1:
     axs.append(z3.Distinct(*[_EXC_CONSTS[n] for n in names]))
